@@ -733,8 +733,103 @@ impl DiagnosticSpans {
     }
 }
 
+// ------------------------------------------------------------------------------------------------------------
+// Defects that the model programs cannot contain (they are syntactically valid and every file has a module): texts
+// with ONE defect of the parsing phases, next to healthy files. "A diagnostic about a defect points into the text of
+// the offending element": every such error names the file it is about and lies on the rows of the defect.
+
+pub struct DefectsInRawText;
+/// (label, text, first row, last row of the offending element) - rows are 1-based, counted after the preamble
+const RAW_DEFECTS: [(&str, &str, usize, usize); 14] = [
+    ("definitions without a module", "struct Q {}\nstruct R { a: int32 }\n", 1, 2),
+    ("a definition without a module, behind comments", "// c\n/* d */\n\ncustom Q\n", 4, 4),
+    ("module declared after the definition", "struct Q {}\nmodule M\n", 1, 2),
+    ("missing closing brace", "module M\nstruct Q {\n  a: int32\n", 2, 4),
+    ("a keyword where a name belongs", "module M\nstruct struct {}\n", 2, 2),
+    ("a stray token between definitions", "module M\nstruct A {}\n)\nstruct B {}\n", 3, 3),
+    ("an unterminated string in an attribute", "module M\n[deprecated(\"open)]\nstruct A {}\n", 2, 3),
+    ("an unterminated block comment", "module M\nstruct A {}\n/* open\nstruct B {}\n", 3, 5),
+    ("an unknown directive", "module M\n#frobnicate X\nstruct A {}\n", 2, 2),
+    ("#if without #endif", "module M\n#if X\nstruct A {}\n", 2, 4),
+    ("#endif without #if", "module M\nstruct A {}\n#endif\n", 3, 3),
+    // (the block that was not opened leaves its #endif behind: a second error there)
+    ("a malformed directive expression", "module M\n#if X &&\nstruct A {}\n#endif\n", 2, 4),
+    ("an integer literal that is out of range", "module M\nenum E : uint8 { A = 99999999999999999999999999 }\n", 2, 2),
+    ("a tag on a member that is not optional", "module M\nstruct S {\n  tag(1) a: int32\n}\n", 3, 3),
+];
+const RAW_PREAMBLES: [&str; 3] = ["", "\n\n", "// première ligne é✓\n\t\n"];
+impl DefectsInRawText {
+    fn texts(idx: u64) -> (Vec<String>, usize, usize, usize, &'static str) {
+        let d = (idx % RAW_DEFECTS.len() as u64) as usize;
+        let pre = RAW_PREAMBLES[((idx / RAW_DEFECTS.len() as u64) % 3) as usize];
+        let arrangement = idx / (RAW_DEFECTS.len() as u64 * 3);
+        let (label, text, lo, hi) = RAW_DEFECTS[d];
+        let shift = pre.matches('\n').count();
+        let bad = format!("{pre}{text}");
+        let healthy = |k: usize| format!("module H{k}\nstruct Fine{k} {{ a: int32 }}\n");
+        let (files, at) = match arrangement {
+            0 => (vec![bad], 0),
+            1 => (vec![healthy(1), bad], 1),
+            2 => (vec![bad, healthy(1)], 0),
+            _ => (vec![healthy(1), bad, healthy(2)], 1),
+        };
+        (files, at, lo + shift, hi + shift, label)
+    }
+}
+impl Family for DefectsInRawText {
+    fn name(&self) -> String {
+        format!("defects-in-raw-text/{} texts with one defect of the parsing phases (no module, syntax errors, unterminated string / comment, directive errors, errors the parser raises itself) x 3 preambles x alone / behind / before / between healthy files: every error names the offending file and lies on the rows of the defect", RAW_DEFECTS.len())
+    }
+    fn len(&self) -> u64 {
+        RAW_DEFECTS.len() as u64 * 3 * 4
+    }
+    fn describe(&self, idx: u64) -> Value {
+        let (files, at, lo, hi, label) = Self::texts(idx);
+        serde_json::json!({"defect": label, "files": files, "offending_file": at, "rows_of_the_defect": [lo, hi]})
+    }
+    fn run(&self, idx: u64) -> CaseOut {
+        let (files, at, lo, hi, label) = Self::texts(idx);
+        let mut out = CaseOut::new(hash_str(&format!("c09raw{files:?}")));
+        out.validated = 1;
+        out.nontrivial = true;
+        let refs: Vec<&str> = files.iter().map(|s| s.as_str()).collect();
+        let ctx = |m: &str| format!("{label}: {m}\n--- files ---\n{}", files.join("\n--- next file ---\n"));
+        let (_, _, diags) = match compile_texts(&refs, None) {
+            Ok(x) => x,
+            Err((loc, msg)) => {
+                out.violate(format!("c09/defects-in-raw-text/panic@{loc}"), ctx(&msg));
+                return out;
+            }
+        };
+        let errors: Vec<&DiagObs> = diags.iter().filter(|d| d.level == "error").collect();
+        if errors.is_empty() {
+            out.violate("c09/defects-in-raw-text/defect-not-reported", ctx("no error diagnostic"));
+            return out;
+        }
+        let n_rows = files[at].lines().count();
+        for d in &errors {
+            out.steps += 1;
+            let (Some(file), Some(sp)) = (&d.file, d.span) else {
+                out.violate(format!("c09/defects-in-raw-text/{}/error-without-a-location", d.code), ctx(&format!("{} {:?} names no file and no position", d.code, d.message)));
+                continue;
+            };
+            if *file != format!("string-{at}") {
+                out.violate(format!("c09/defects-in-raw-text/{}/error-placed-in-another-file", d.code), ctx(&format!("{} {:?} is placed in {file}, the defect is in string-{at}", d.code, d.message)));
+                continue;
+            }
+            // (an error about the END of the text may sit one row below the last line)
+            if sp.sr < lo || sp.er > hi.max(n_rows) + 1 || sp.sr > hi + 1 || (sp.sr, sp.sc) > (sp.er, sp.ec) || sp.sc < 1 {
+                out.violate(format!("c09/defects-in-raw-text/{}/error-outside-the-defect", d.code), ctx(&format!("{} {:?} spans {}:{}..{}:{}, the defect occupies rows {lo}..{hi}", d.code, d.message, sp.sr, sp.sc, sp.er, sp.ec)));
+            }
+        }
+        out.class = format!("{}:{}", errors[0].code, errors.len().min(3));
+        out
+    }
+}
+
 pub fn families(tier: &str) -> Vec<Box<dyn Family>> {
     let mut v: Vec<Box<dyn Family>> = vec![Box::new(DiagnosticSpans { arity: 1 }), Box::new(DiagnosticSpans { arity: 2 }), Box::new(DiagnosticSpans { arity: 0 }), Box::new(DiagnosticSpans { arity: 3 })];
+    v.push(Box::new(DefectsInRawText));
     v.push(Box::new(Positions { inner: Box::new(NonAsciiDocs) }));
     v.extend(crate::model::families::program_families(tier).into_iter().map(|f| Box::new(Positions { inner: f }) as Box<dyn Family>));
     v
